@@ -16,7 +16,7 @@ def gen(rng, tier):
     for _ in range(n):
         rel = rng.random() < 0.35
         st = laylib.setup(rng, mode=rng.choice([0, 0, 1, 2]), owners=True, links=True, relative=rel)
-        ow = rng.choice(["-", "0", "1234"]); gr = rng.choice(["-", "0", "4321"]); nl = rng.choice(["0", "0", "1"])
+        ow = rng.choice(["-", "0", "1234", "-", "0", "1234", "4294967295"]); gr = rng.choice(["-", "0", "4321", "-", "0", "4321", "4294967295"]); nl = rng.choice(["0", "0", "1"])
         files = laylib.files_of(st["cmds"])
         cbc = ["cb reject"] if rng.random() < 0.4 else []          # the ...WithCallback entry points with a callback that accepts everything
         secs = ["sec %s %s %s" % (ow, gr, nl)]
